@@ -14,13 +14,15 @@ def jobs(tier):
     n, d, fc, sc = 10, 3, 1000, 2
     start = rf.first_sample_of_ms(1394368230000 // 2000 * 2000, n, d)
     nsubs = (1, 2) if tier == "quick" else (1, 2, 3)
-    extra_rates = [] if tier == "quick" else [(7, 2, 1000, 3), (2, 3, 2000, 4)]
+    extra_rates = [(200, 3, 400, 2)] if tier == "quick" else [(200, 3, 400, 2), (7, 2, 1000, 3), (2, 3, 2000, 4)]
     for kind, size in U.TYPE_KINDS:
         for order in ("<", ">"):
             for cplx in (False, True):
                 for nsub in nsubs:
                     for (n_, d_, fc_, sc_) in [(n, d, fc, sc)] + extra_rates:
                         st = start if (n_, d_) == (n, d) else rf.first_sample_of_ms(1394368230000 // (sc_ * 1000) * (sc_ * 1000), n_, d_)
+                        if (n_, d_) == (200, 3) and tier == "quick" and (nsub != 1 or order == ">"):
+                            continue
                         out.append(dict(kind=kind, size=size, order=order, cplx=cplx, nsub=nsub, n=n_, d=d_, fc=fc_, sc=sc_, start=st))
     return out
 
@@ -41,7 +43,12 @@ def run_job(base):
 
     seed = core.seed()
     part = core.new_part()
-    for lname, ops in U.GAP_LAYOUTS.items():
+    layouts = dict(U.GAP_LAYOUTS)
+    if base["n"] == 200:
+        # files of 26-27 slots: several writes with gaps between them inside one open file
+        layouts = {"two_gaps_in_one_file": [("w", 0, 2), ("w", 4, 2), ("w", 9, 3)],
+                   "three_gaps_then_rollover": [("w", 1, 1), ("w", 3, 2), ("w", 8, 1), ("w", 12, 20)]}
+    for lname, ops in layouts.items():
         results = {}
         for mode in ("gapped", "cont", "cont+cks", "cont+gz1"):
             cfg = rf.Cfg(**base, **U.MODES[mode])
